@@ -42,6 +42,10 @@ type histCase struct {
 	Counts   []int    `json:"counts,omitempty"`
 	// Fault restricts a replay to one fault index (-1 = all).
 	Fault int `json:"fault"`
+	// Companion > 0 (C09): after step Companion-1 a second Encoder for the same type is
+	// created on a sink of its own and from then on fed the same values, turn and turn
+	// about with the first (two files written side by side by one goroutine).
+	Companion int `json:"companion,omitempty"`
 }
 
 var mapFree = []string{"AllFixed", "Simple", "Empty", "BigStrings", "Widths", "Registered", "Skips", "Embeds", "ReuseTwice", "SubOdd", "WideRecord", "WideRecord", "EmbedMid", "RowTime", "RowNullInt", "RowNullString"}
@@ -103,6 +107,30 @@ func drawHistCase(t *rapid.T, mapFreeOnly bool) histCase {
 		ts = cat.Get(c.Cat).Spec
 		n = gen.UniformRange(t, "nopsHuge", 24, 40)
 	}
+	if !mapFreeOnly && gen.Uniform(t, "midBlocks", 60) == 0 {
+		// blocks of 64-256 KiB holding records of about 1 KiB and now and then one of 40-200 KiB
+		c.BlockSize = []int{64 << 10, 65537, 100000, 128 << 10, 200000, 256 << 10}[gen.Uniform(t, "midBlockSize", 6)]
+		c.Cat = "BigStrings"
+		ts = cat.Get(c.Cat).Spec
+		n = gen.UniformRange(t, "nopsMid", 40, 160)
+		for i := 0; i < n; i++ {
+			if gen.Uniform(t, "opMid", 12) == 0 {
+				c.Ops = append(c.Ops, histOp{Flush: true})
+				continue
+			}
+			ln := 900 + gen.Uniform(t, "midLen", 300)
+			if gen.Uniform(t, "midBig", 15) == 0 {
+				ln = 40000 + 1000*gen.Uniform(t, "midBigLen", 160)
+			}
+			b := make([]byte, ln)
+			for j := range b {
+				b[j] = byte('a' + (i*29+j*5+j/311)%26)
+			}
+			c.Ops = append(c.Ops, histOp{Value: spec.ValueSpec{Fields: []spec.ValueSpec{{S: []byte("k")}, {S: b}}}})
+		}
+		c.Fault = -1
+		return c
+	}
 	if c.BlockSize >= 4000 && c.BlockSize < 5000 {
 		// enough large records to fill several blocks of about 4 KiB (a common buffer size)
 		c.Cat = "BigStrings"
@@ -135,6 +163,9 @@ func drawHistCase(t *rapid.T, mapFreeOnly bool) histCase {
 		}
 	}
 	c.Fault = -1
+	if !mapFreeOnly && gen.Uniform(t, "companion", 5) == 0 {
+		c.Companion = 1 + gen.Uniform(t, "companionAt", len(c.Ops))
+	}
 	return c
 }
 
@@ -246,7 +277,30 @@ func runC09(c histCase) (bool, []string, error) {
 		}
 		return nil
 	}
+	var compSink bytes.Buffer
+	var comp cat.Enc
+	var compAll []spec.AbsVal
 	for step, op := range c.Ops {
+		if c.Companion > 0 && step == c.Companion-1 {
+			if comp, err = entry.NewEncoder(&compSink, avro.Compression(c.Compression), 37+c.BlockSize/3); err != nil {
+				return false, nil, fmt.Errorf("step %d: NewEncoderFor for a second file: %v", step, err)
+			}
+		}
+		if comp != nil {
+			if op.Flush {
+				if step%2 == 0 {
+					if err := comp.Flush(); err != nil {
+						return false, nil, fmt.Errorf("step %d: Flush of the second file: %v", step, err)
+					}
+				}
+			} else {
+				v := spec.New(ts, op.Value)
+				compAll = append(compAll, spec.Abs(ts, false, v.Elem()))
+				if err := comp.Encode(v.UnsafePointer()); err != nil {
+					return false, nil, fmt.Errorf("step %d: Encode into the second file: %v", step, err)
+				}
+			}
+		}
 		if op.Flush {
 			had := len(pending)
 			if err := enc.Flush(); err != nil {
@@ -290,6 +344,30 @@ func runC09(c histCase) (bool, []string, error) {
 				return false, nil, err
 			}
 			pending = nil
+		}
+	}
+	if comp != nil {
+		if err := comp.Flush(); err != nil {
+			return false, nil, fmt.Errorf("final Flush of the second file: %v", err)
+		}
+		_, _, blocks, err := ref.ReadRecords(compSink.Bytes())
+		if err != nil {
+			return false, nil, fmt.Errorf("the second file, written turn and turn about with the first, is not a valid file: %v", err)
+		}
+		i := 0
+		for _, b := range blocks {
+			for _, d := range b {
+				if i >= len(compAll) {
+					return false, nil, fmt.Errorf("the second file holds more records than were encoded into it (%d)", len(compAll))
+				}
+				if err := spec.Match(compAll[i], spec.AbsOfDatum(schema, d), fmt.Sprintf("second file, record %d", i)); err != nil {
+					return false, nil, fmt.Errorf("the second file, written turn and turn about with the first, differs from what was encoded into it: %v", err)
+				}
+				i++
+			}
+		}
+		if i != len(compAll) {
+			return false, nil, fmt.Errorf("the second file holds %d records, %d were encoded into it", i, len(compAll))
 		}
 	}
 	// final flush and whole-file check
